@@ -5,6 +5,7 @@ import (
 	"os"
 	"path/filepath"
 	"regexp"
+	"sort"
 	"strings"
 	"sync"
 	"sync/atomic"
@@ -13,6 +14,21 @@ import (
 
 func init() { register("C03", checkC03) }
 
+var rePrefixRef = regexp.MustCompile(`(?m)^##!\^ \{\{(\w+)\}\}`)
+
+// prefixUsesNestedDef: a prefix line refers to a definition whose value refers to another one.
+func prefixUsesNestedDef(t string) bool {
+	m := rePrefixRef.FindStringSubmatch(t)
+	if m == nil {
+		return false
+	}
+	for _, l := range strings.Split(t, "\n") {
+		if strings.HasPrefix(l, "##!> define "+m[1]+" ") && strings.Contains(l, "{{") {
+			return true
+		}
+	}
+	return false
+}
 var reTwoPairs = regexp.MustCompile(`-- \S+ \S+ \S+ \S+`)
 
 type clsLine struct {
@@ -79,7 +95,7 @@ func checkC03(c *Ctx) error {
 		if err != nil {
 			return err
 		}
-		n := 0
+		buckets := map[string][]job{}
 		var files map[string][]string
 		stf, err := c.runTLC(TLCRun{Module: "MC_Parse", Seed: c.Seed, Timeout: 20 * time.Minute,
 			Constants: map[string]string{"Sigma": "<- MCSigma", "N": "= 3", "LeafD": "<- MCLeafD", "Deviations": "<- MCDev", "Cfg": "<- MCCfg",
@@ -102,16 +118,26 @@ func checkC03(c *Ctx) error {
 			t := strings.Join(cs.Lines, "\n")
 			// include-except (the include map is rebuilt from a Go map) and suffix pair lists;
 			// chains of three definitions used by an entry
-			interesting := (fam == "exc" && (reTwoPairs.MatchString(t) || strings.Contains(t, "include-except f3"))) ||
-				(fam == "def" && strings.Count(t, "define") >= 3 && strings.Contains(t, "define r ") && strings.Contains(t, "\n{{r}}"))
-			if !interesting || cs.Expect != "ok" || (fam == "def" && caseHash(cs.Lines, c.Seed)%5 != 0) {
+			// include-except (the include map is rebuilt from a Go map), suffix pair lists, exclude
+			// files that interact through definitions; chains of three definitions used by an entry
+			bucket := ""
+			switch {
+			case fam == "exc" && strings.Contains(t, " xd1"):
+				bucket = "exclude files sharing definitions"
+			case fam == "exc" && strings.Contains(t, "include-except f3"):
+				bucket = "order-revealing word list"
+			case fam == "exc" && reTwoPairs.MatchString(t):
+				bucket = "several suffix pairs"
+			case fam == "def" && strings.Count(t, "define") >= 2 && prefixUsesNestedDef(t):
+				bucket = "definitions in a prefix line"
+			case fam == "def" && strings.Count(t, "define") >= 3 && strings.Contains(t, "define r ") && strings.Contains(t, "\n{{r}}"):
+				bucket = "chained definitions"
+			}
+			if bucket == "" || cs.Expect != "ok" || (bucket == "chained definitions" && caseHash(cs.Lines, c.Seed)%5 != 0) {
 				return nil
 			}
 			mu.Lock()
-			if n < perFamily {
-				n++
-				jobs = append(jobs, job{what: fam + " program", text: cs.text(), same: strings.Join(cs.Same, "\n") + "\n", root: famRoot})
-			}
+			buckets[bucket] = append(buckets[bucket], job{what: fam + " program (" + bucket + ")", text: cs.text(), same: strings.Join(cs.Same, "\n") + "\n", root: famRoot})
 			mu.Unlock()
 			return nil
 		})
@@ -119,6 +145,23 @@ func checkC03(c *Ctx) error {
 			return err
 		}
 		famStates += stf.Distinct
+		// a seeded sample of every bucket (TLC's enumeration order is not deterministic)
+		names := make([]string, 0, len(buckets))
+		for b := range buckets {
+			names = append(names, b)
+		}
+		sort.Strings(names)
+		for _, b := range names {
+			l := buckets[b]
+			sort.Slice(l, func(i, j int) bool {
+				return caseHash([]string{l[i].text}, c.Seed) < caseHash([]string{l[j].text}, c.Seed)
+			})
+			c.Cov["bucket: "+b] = len(l)
+			if len(l) > perFamily/len(names)+1 {
+				l = l[:perFamily/len(names)+1]
+			}
+			jobs = append(jobs, l...)
+		}
 		t := Tree{}
 		for p, ls := range files {
 			t["regex-assembly/"+p] = strings.Join(ls, "\n") + "\n"
